@@ -1097,8 +1097,8 @@ impl Prop for C18 {
     fn cases(&self, tier: Tier) -> u64 {
         (BODIES.len() + LIMITS.len() + 3) as u64
             + match tier {
-                Tier::Quick => 3_000,
-                Tier::Thorough => 150_000,
+                Tier::Quick => 6_000,
+                Tier::Thorough => 300_000,
             }
     }
 
